@@ -1,5 +1,7 @@
 import RlModel.Gen.PlanRules
 import RlModel.Lemmas.PlanSem
+import RlModel.Lemmas.PlanOrder
+import RlModel.Lemmas.PlanAgg
 /-!
 # C01 — plan rewrite rules (property theorems)
 
@@ -43,6 +45,56 @@ theorem psound_filter_merge : pstmt_filter_merge := by
 theorem psound_filter_split : pstmt_filter_split := by
   intro c1 c2 r _
   simp [RelEq, Rel.out, filter, List.filter_filter, Bool.and_comm]
+
+/-- A filter commutes with ORDER BY: the sort is stable and its comparison a strict weak order,
+so the rows that pass keep their relative order. -/
+theorem psound_pushdown_filter_order : pstmt_pushdown_filter_order := by
+  intro c ks r _ _
+  simp only [RelEq, Rel.out, filter, order]
+  rw [sortRows_filter (keysLt ks) (keysLt_strictWeak ks) (holds c) r.rows]
+
+theorem filter_map_comm {α β} (gs : List α) (f : α → β) (q : β → Bool) (r : α → Bool)
+    (h : ∀ g ∈ gs, q (f g) = r g) : (gs.map f).filter q = (gs.filter r).map f := by
+  induction gs with
+  | nil => rfl
+  | cons g gs ih =>
+    have hg := h g (by simp)
+    have ih' := ih (fun x hx => h x (by simp [hx]))
+    by_cases hr : r g = true
+    · simp [List.filter_cons, hg, hr, ih']
+    · simp [List.filter_cons, hg, hr, ih']
+
+/-- A filter that only depends on the group keys commutes with hash aggregation: groups are
+kept or dropped as a whole and the aggregates of the kept groups see the same member rows. -/
+theorem psound_pushdown_filter_hashagg : pstmt_pushdown_filter_hashagg := by
+  intro c ks aggs R _ _ hind hkey
+  unfold RelPerm
+  apply List.Perm.of_eq
+  simp only [Rel.out, filter, hashagg]
+  congr 1
+  -- a key-level predicate, chosen classically from any row with that key
+  classical
+  let P : List PV → Bool := fun kv =>
+    if h : ∃ ρ : Env, groupKey ks ρ = kv then holds c (Classical.choose h) else false
+  have hP : ∀ ρ, holds c ρ = P (groupKey ks ρ) := by
+    intro ρ
+    have hex : ∃ ρ' : Env, groupKey ks ρ' = groupKey ks ρ := ⟨ρ, rfl⟩
+    simp only [P, dif_pos hex]
+    unfold holds
+    rw [hkey ρ (Classical.choose hex) (Classical.choose_spec hex).symm]
+  rw [groups_filter ks (holds c) P hP R.rows]
+  apply filter_map_comm
+  intro g hg
+  obtain ⟨hne, hmem⟩ := groups_inv ks R.rows g hg
+  obtain ⟨k, ms⟩ := g
+  cases ms with
+  | nil => exact absurd rfl hne
+  | cons m ms =>
+    have hk : groupKey ks m = k := hmem m (by simp)
+    have h1 : holds c (aggRow aggs (m :: ms)) = holds c m := by
+      unfold holds
+      rw [hind (aggRow aggs (m :: ms)) m (fun x hx => aggRow_outside aggs m ms x hx)]
+    simp only [h1, hP m, hk]
 
 -- projection rules: a projection changes the schema only ----------------------------------
 
